@@ -71,6 +71,12 @@ PrimApply(op, a) ==
     [] op = "si.ge"  -> VBool(Cmp(a[1].z, a[2].z) >= 0)
     [] op = "si.eq"  -> VBool(Eq(a[1].z, a[2].z))
     [] op = "si.ne"  -> VBool(~Eq(a[1].z, a[2].z))
+    [] op = "si.odd"  -> VBool(MBit(a[1].z.mag, 0) = 1)          \* odd?(x): parity of the magnitude
+    [] op = "si.even" -> VBool(MBit(a[1].z.mag, 0) = 0)
+    [] op = "si.zero" -> VBool(IsZero(a[1].z))
+    [] op = "bi.odd"  -> VBool(MBit(a[1].z.mag, 0) = 1)
+    [] op = "bi.even" -> VBool(MBit(a[1].z.mag, 0) = 0)
+    [] op = "bi.zero" -> VBool(IsZero(a[1].z))
     [] op = "si.tobi" -> VBI(a[1].z)
     [] op = "bi.add" -> VBI(Add(a[1].z, a[2].z))
     [] op = "bi.sub" -> VBI(Sub(a[1].z, a[2].z))
